@@ -39,6 +39,7 @@ CONSTANTS
   TrackCut,       \* feed ring pushes / drains to the ghost (needed for the cut signature)
   FixRecv, FixFifo, FixCancelDefault, FixEmptyToken, FixStackFull, FixForceStart, FixReentrant, FixInSpan, FixExitOrder,
   AdapterKinds, InnerKinds, MaxFuts, MaxPolls, DistinctOps,
+  Prefix,         \* TRUE: Prog is only how every behaviour begins; the menu takes over afterwards
   Mut,            \* "none", or the name of a deliberately wrong variant of one action (see Mutants below)
   None
 
@@ -73,7 +74,10 @@ vars == <<tst, reg, ring, pend, cur, inop, stack, hs, spans, lsets, pushed, futs
 \* `hist` is not part of a state's identity - except, when DistinctOps is set, the names of the calls
 \* made: where most calls are no-ops (no reporter, feature off) different programs would otherwise
 \* end in the same state and only one of them would be printed for replay
-OpNames == [i \in DOMAIN hist |-> IF "op" \in DOMAIN hist[i] THEN hist[i].op ELSE hist[i].ev]
+OpNames == [i \in DOMAIN hist |-> IF "op" \in DOMAIN hist[i]
+                                  THEN <<hist[i].op, IF "h" \in DOMAIN hist[i] THEN hist[i].h ELSE 0,
+                                         IF "evt" \in DOMAIN hist[i] THEN Len(hist[i].evt.props) ELSE 0>>
+                                  ELSE <<hist[i].ev, 0, 0>>]
 view == <<tst, reg, ring, pend, cur, inop, stack, hs, spans, lsets, pushed, futs, cph, ci, batch, cown, active,
           nid, nops, natt, ncyc, nfl, pc, quiet, a, IF DistinctOps THEN OpNames ELSE <<>>>>
 
@@ -373,7 +377,7 @@ LEvent(t, withp) ==
   /\ AttOk /\ natt' = natt + 1
   /\ stack' = IF ok THEN SetTop(t, [Top(t) EXCEPT !.q = Append(@, [id |-> 0, par |-> Top(t).nxt, k |-> "event", n |-> n, props |-> evt.props])]) ELSE stack
   /\ Bump(t)
-  /\ Begin(t, <<>>, Ev(t, "levent") @@ [evt |-> evt], Rt(t, "levent"))
+  /\ Begin(t, <<>>, Ev(t, "levent") @@ [evt |-> evt], Rt(t, "levent") @@ [cc |-> IF Enabled THEN 1 ELSE 0])
   /\ UNCHANGED <<spans, lsets, futs, pushed, hs>>
 
 \* `re`: the property closure itself calls into fastrace (current_local_parent()), as a closure that
@@ -415,7 +419,7 @@ SAttach(t, h, kind, withp) ==
   /\ Bump(t)
   /\ IF kind = "event"
      THEN Begin(t, cmds, Ev(t, "sevent") @@ [h |-> h, evt |-> [name |-> n, props |-> raw.props]],
-                Rt(t, "sevent") @@ [h |-> h, evt |-> [name |-> n, props |-> raw.props]])
+                Rt(t, "sevent") @@ [h |-> h, evt |-> [name |-> n, props |-> raw.props], cc |-> IF Enabled THEN 1 ELSE 0])
      ELSE Begin(t, cmds, Ev(t, "sprops") @@ [h |-> h, kvs |-> <<KV(n)>>],
                 Rt(t, "sprops") @@ [h |-> h, kvs |-> <<KV(n)>>, cc |-> IF spans[h].st = "live" THEN 1 ELSE 0])
   /\ UNCHANGED <<spans, lsets, futs, pushed, stack, hs>>
@@ -492,7 +496,7 @@ Inner(t, ln, has, inner, n) ==
              Ev(t, "lexit") @@ [l |-> n], Rt(t, "lexit") @@ [l |-> n]>>>>
     [] inner = "ev" ->
          <<IF ok THEN [ln EXCEPT !.q = Append(@, [id |-> 0, par |-> ln.nxt, k |-> "event", n |-> n, props |-> <<>>])] ELSE ln,
-           <<Ev(t, "levent") @@ [evt |-> [name |-> n, props |-> <<>>]], Rt(t, "levent") @@ [evt |-> [name |-> n, props |-> <<>>]]>>>>
+           <<Ev(t, "levent") @@ [evt |-> [name |-> n, props |-> <<>>]], Rt(t, "levent") @@ [evt |-> [name |-> n, props |-> <<>>], cc |-> IF Enabled THEN 1 ELSE 0]>>>>
     [] inner = "ctx" ->
          LET tok == IF has /\ ~ln.lc THEN CurTok(ln) ELSE <<>>
              ctx == IF tok # <<>> THEN [some |-> TRUE, tr |-> tok[1].tr, id |-> tok[1].par, smp |-> tok[1].smp] ELSE [some |-> FALSE] IN
@@ -802,7 +806,7 @@ Fixed == \E t \in Threads : Prog[t] # <<>>
 
 Op(t) ==
   /\ CanStart(t)
-  /\ IF Fixed
+  /\ IF Fixed /\ (~Prefix \/ pc[t] <= Len(Prog[t]))
      THEN /\ pc[t] <= Len(Prog[t])
           \* a step may wait for a handle another thread creates
           /\ (("h" \in DOMAIN Prog[t][pc[t]]) => Prog[t][pc[t]].h \in DOMAIN spans)
@@ -812,6 +816,7 @@ Op(t) ==
           /\ pc' = [pc EXCEPT ![t] = @ + 1]
           /\ UNCHANGED nops
      ELSE /\ Budget
+          /\ Prefix => \A u \in Threads : tst[u] # "live" \/ pc[u] > Len(Prog[u])
           /\ MenuOp(t)
           /\ nops' = nops + 1
           /\ UNCHANGED pc
@@ -819,7 +824,8 @@ Op(t) ==
 
 \* deterministic teardown once the budget is spent: close what is open (innermost first), finish
 \* the remaining spans, exit; lowest thread first; no branching
-ProgDone == IF Fixed THEN \A t \in Threads : tst[t] # "live" \/ pc[t] > Len(Prog[t]) ELSE ~Budget
+ProgDone == IF Fixed /\ ~Prefix THEN \A t \in Threads : tst[t] # "live" \/ pc[t] > Len(Prog[t])
+            ELSE ~Budget /\ \A t \in Threads : tst[t] # "live" \/ pc[t] > Len(Prog[t])
 Idle(t) == cur[t] = <<>> /\ inop[t] = None
 LowestBusy == {t \in Threads : tst[t] = "live" /\ Idle(t)}
 Teardown(t) ==
